@@ -691,16 +691,14 @@ func (m *Message) GetDialog() (string, error) {
 	if err != nil {
 		return "", err
 	}
-	if from_addr_s < to_addr_s {
-		return NewDialog(callId,
-			fmt.Sprintf("%s-%s", from_tag, from_addr_s),
-			fmt.Sprintf("%s-%s", to_tag, to_addr_s)).String(), nil
-	} else {
-		return NewDialog(callId,
-			fmt.Sprintf("%s-%s", to_tag, to_addr_s),
-			fmt.Sprintf("%s-%s", from_tag, from_addr_s)).String(), nil
-
+	// order the two endpoints by the whole (tag, address) half, not by the address alone:
+	// with equal From and To URIs the id must not depend on the direction of the message
+	from_half := dialogHalf(from_tag, from_addr_s)
+	to_half := dialogHalf(to_tag, to_addr_s)
+	if from_half < to_half {
+		return NewDialog(callId, from_half, to_half).String(), nil
 	}
+	return NewDialog(callId, to_half, from_half).String(), nil
 }
 
 func (m *Message) getDialogAddr(addr *AddrSpec) (string, error) {
